@@ -168,7 +168,7 @@ func (p *Proc) start(sgn signer.Signer, mo block.ManagerOptions) error {
 	if p.Via != nil {
 		nodeDA = p.Via
 	}
-	seq, err = single.NewSequencerWithQueueSize(ctx, world.Logger(), p.KV, nodeDA, []byte(p.Cfg.ChainID), p.Cfg.Node.BlockTime.Duration, nil, p.Cfg.Node.Aggregator, 1000)
+	seq, err = single.NewSequencerWithQueueSize(ctx, world.Logger(), p.KV, nodeDA, []byte(p.Cfg.ChainID), p.Cfg.Node.BlockTime.Duration, seqMetrics(), p.Cfg.Node.Aggregator, 1000)
 	if err != nil {
 		cancel()
 		return fmt.Errorf("sequencer: %w", err)
@@ -817,4 +817,11 @@ func (e *exactFit) SubmitWithOptions(ctx context.Context, blobs []coreda.Blob, g
 
 func (e *exactFit) Submit(ctx context.Context, blobs []coreda.Blob, gp float64, ns []byte) ([]coreda.ID, error) {
 	return e.SubmitWithOptions(ctx, blobs, gp, ns, nil)
+}
+
+// seqMetrics are the sequencing layer's metrics as the applications pass them when instrumentation is off
+// (discard collectors; the sequencer then goes through its whole metrics path, as in a real node).
+func seqMetrics() *single.Metrics {
+	m, _ := single.NopMetrics()
+	return m
 }
